@@ -226,6 +226,21 @@ def case_random(case):
     ncmp += S01.size
     if (np.abs(S10.T - S01) > 2 * TOLF * EPS * A01 + 2e-14 + 2 * T01).any():
         viols.append(_v("overlap-transpose", "random two-basis: exchanging the bases does not transpose the matrix"))
+    # the SAME basis object for both arguments at two geometries (displaced / distorted copies of one molecule), and with the same
+    # geometry (must equal the one-basis matrix)
+    xyz_b = xyz + rng.normal(scale=0.4, size=xyz.shape)
+    Ssame = compute_overlap(basis, xyz, basis, xyz_b)
+    Rs, As, Ts = gto.overlap_exact(basis, xyz, basis, xyz_b, with_bound=True)
+    v, n3 = compare(Ssame, Rs, As, Ts, "same basis object at two geometries")
+    viols += v
+    Sback = compute_overlap(basis, xyz_b, basis, xyz)
+    if (np.abs(Sback.T - Ssame) > 2 * TOLF * EPS * As + 2e-14 + 2 * Ts).any():
+        viols.append(_v("overlap-transpose", "same basis object at two geometries: exchanging the geometries does not transpose the matrix"))
+    Sdiag = compute_overlap(basis, xyz, basis, xyz)
+    v, _n = compare(Sdiag, R, A, T, "same basis object, same geometry, two-basis call")
+    viols += v
+    ncall += 3
+    ncmp += 2 * Ssame.size
     for x in viols:
         x["shells"] = describe(shells)
         x["atcoords"] = xyz.tolist()
